@@ -1,7 +1,8 @@
 (* Property theorems of the Exec cluster (C02, C06, ...).  Nothing but statements, [exact]
    and Print Assumptions.  Scope of the model: see the header of Exec/Model.v. *)
 From FC Require Import Exec.Model Exec.ProofsMap Exec.Proofs02 Exec.Proofs06 Exec.Proofs04 Exec.Proofs03
-  Exec.Proofs01.
+  Exec.Proofs01 Exec.Proofs05.
+From FC Require Import Common.Sha256 Common.Merkle.
 Open Scope N_scope.
 
 (* ------------------------------------------------------------------ C02 *)
@@ -190,3 +191,67 @@ Theorem dry_run_function : forall P hdr c txs st1 st2,
   st1 = st2 -> dry_run P hdr c txs st1 = dry_run P hdr c txs st2.
 Proof. exact dry_run_function_all. Qed.
 Print Assumptions dry_run_function.
+
+(* ------------------------------------------------------------------ C05 *)
+(* process_da either fails with exactly the code's error cases, or imports - in order - the
+   events of the DA heights p+1 .. d (p = DA height of the parent block, d = of this block):
+   MessageImported for every message, ForcedTransactionFailed for every invalid forced
+   transaction, the valid forced transactions [fs] for execution; the messages are inserted
+   into the Messages table and event_inbox_root is the binary Merkle root (SHA-256) of the
+   hashes of exactly these events in this order. *)
+Theorem da_range_exact : forall hdr l s s' fs e,
+  process_da hdr l s = (s', fs, e) ->
+  match e with
+  | Some e =>
+      (h_height hdr = 0 /\ e = E_ExecutingGenesisBlock) \/
+      (h_height hdr <> 0 /\ l_prev_da l = None /\ e = E_PreviousBlockIsNotFound) \/
+      (h_height hdr <> 0 /\ l_prev_da l = Some u64max /\ e = E_DaHeightExceededItsLimit) \/
+      (exists p, h_height hdr <> 0 /\ l_prev_da l = Some p /\ p <> u64max /\
+                 range_ok (da_span hdr p) (p + 1) (l_relayer l) = false /\
+                 e = E_RelayerGivesIncorrectMessages)
+  | None =>
+      exists p, h_height hdr <> 0 /\ l_prev_da l = Some p /\ p <> u64max /\
+        let R := range_events (da_span hdr p) (p + 1) (l_relayer l) in
+        range_ok (da_span hdr p) (p + 1) (l_relayer l) = true /\
+        events (r_d s') = events (r_d s) ++ flat_map ev_of R /\
+        fs = flat_map forced_of R /\
+        inbox_root (r_d s') = binary_root256 (map rhash R) /\
+        r_st s' = import_msgs R (r_st s) /\ r_blk s' = r_blk s
+  end.
+Proof. exact da_range_exact_all. Qed.
+Print Assumptions da_range_exact.
+
+(* the imported range is exactly the heights (p, d]; it is empty when d <= p *)
+Theorem da_heights : forall hdr p rel e,
+  In e (range_events (da_span hdr p) (p + 1) rel) <->
+  exists h, p < h /\ h <= h_da hdr /\ In e (events_at rel h).
+Proof. exact da_heights_all. Qed.
+Print Assumptions da_heights.
+
+Theorem da_no_advance : forall hdr p rel,
+  h_da hdr <= p -> range_events (da_span hdr p) (p + 1) rel = [].
+Proof. exact da_no_advance_all. Qed.
+Print Assumptions da_no_advance.
+
+(* each message of the range is in the Messages table afterwards (inserted once) when the
+   relayer delivers every nonce once *)
+Theorem imported_once : forall evs st h n m,
+  In (RMsg h n m) evs -> NoDup (flat_map nonce_of evs) ->
+  lookup N.eqb n (msgs (import_msgs evs st)) = Some m.
+Proof. exact imported_once_all. Qed.
+Print Assumptions imported_once.
+
+(* every valid forced transaction is executed (its id is in the block) or reported *)
+Theorem forced_executed_or_reported : forall P hdr fs s,
+  let s' := process_relayed P hdr fs s in
+  (forall a, In a fs ->
+     In (t_id (a_tx a)) (map t_id (r_blk s')) \/ In (ForcedFailed (t_id (a_tx a))) (events (r_d s'))) /\
+  (exists delta, events (r_d s') = events (r_d s) ++ delta) /\
+  (exists more, map t_id (r_blk s') = map t_id (r_blk s) ++ more).
+Proof. exact forced_executed_or_reported_all. Qed.
+Print Assumptions forced_executed_or_reported.
+
+Theorem relayer_disabled : forall P hdr l s,
+  l_enabled l = false -> process_l1 P hdr l s = (s, None).
+Proof. exact relayer_disabled_all. Qed.
+Print Assumptions relayer_disabled.
